@@ -182,7 +182,7 @@ def run_layout(R, tonic):
         if len(gets) == 2:
             R.check(dc.dominates(gets[0][0], gets[1][0]), 'C01.R2', 'flag-before-length', site(dc, gets[1][0]), 'get_u8 dominates get_u32')
             for gb, gt in gets:
-                R.check(mentions_field(dc.origin(gt['args'][0]), 'buf'), 'C01.R2', '%s-from-buf' % gt['name'], site(dc, gb), 'source = %s' % show(dc.origin(gt['args'][0])))
+                R.check(mentions_field(dc.origin(gt['args'][0]), decode_buf_fields(tonic)[0]), 'C01.R2', '%s-from-buf' % gt['name'], site(dc, gb), 'source = %s' % show(dc.origin(gt['args'][0])))
                 gs = dc.edge_guards(gb)
                 okg = False
                 for s_, vals, tm in gs:
@@ -225,18 +225,19 @@ def run_layout(R, tonic):
         R.check(is_call(ln, name='len') and arg_root(ln[2][0]) == scr_n and enc_comp and ei.dominates(enc_comp[0][0], [bb for bb, t in ei.calls(name='len') if t is ln[4]][0]), 'C01.R4', 'encode:compress-len-after-encode', site(ei, cb), 'len argument = %s' % show(ln))
         dc = tonic.body('decode::StreamingInner::decode_chunk')
         db, dt = dc.call1(pat='compression::decompress')
-        cl = [(bb, t) for bb, t in dc.calls(name='clear') if mentions_field(dc.origin(t['args'][0]), 'decompress_buf')]
+        RBUF, DBUF = decode_buf_fields(tonic)
+        cl = [(bb, t) for bb, t in dc.calls(name='clear') if mentions_field(dc.origin(t['args'][0]), DBUF)]
         R.check(len(cl) == 1 and dc.dominates(cl[0][0], db), 'C01.R4', 'decode:clear-before-decompress', site(dc, db), 'decompress_buf.clear() dominates decompress')
-        R.check(mentions_field(dc.origin(dt['args'][1]), 'buf') and not mentions_field(dc.origin(dt['args'][1]), 'decompress_buf') and mentions_field(dc.origin(dt['args'][2]), 'decompress_buf'), 'C01.R4', 'decode:decompress-src-dst', site(dc, db),
+        R.check(mentions_field(dc.origin(dt['args'][1]), RBUF) and not mentions_field(dc.origin(dt['args'][1]), DBUF) and mentions_field(dc.origin(dt['args'][2]), DBUF), 'C01.R4', 'decode:decompress-src-dst', site(dc, db),
                 'decompress(src=%s, dst=%s)' % (show(dc.origin(dt['args'][1])), show(dc.origin(dt['args'][2]))))
         views = dc.calls(pat='DecodeBuf', name='new')
         R.check(len(views) == 2, 'C01.R4', 'decode:two-views', site(dc), 'DecodeBuf::new sites: %d' % len(views))
         for vb, vt in views:
             bufa, lena = dc.origin(vt['args'][0]), strip_refs(dc.origin(vt['args'][1]))
-            if mentions_field(bufa, 'decompress_buf'):
-                R.check(is_call(lena, name='len') and mentions_field(lena, 'decompress_buf') and dc.dominates(db, vb), 'C01.R4', 'decode:view-compressed', site(dc, vb), 'DecodeBuf::new(decompress_buf, %s)' % show(lena))
+            if mentions_field(bufa, DBUF):
+                R.check(is_call(lena, name='len') and mentions_field(lena, DBUF) and dc.dominates(db, vb), 'C01.R4', 'decode:view-compressed', site(dc, vb), 'DecodeBuf::new(decompress_buf, %s)' % show(lena))
             else:
-                R.check(mentions_field(bufa, 'buf') and term_contains(lena, lambda x: x and x[0] == 'variant' and x[2] == 'ReadBody'), 'C01.R4', 'decode:view-identity', site(dc, vb), 'DecodeBuf::new(%s, %s)' % (show(bufa), show(lena)[:80]))
+                R.check(mentions_field(bufa, RBUF) and term_contains(lena, lambda x: x and x[0] == 'variant' and x[2] == 'ReadBody'), 'C01.R4', 'decode:view-identity', site(dc, vb), 'DecodeBuf::new(%s, %s)' % (show(bufa), show(lena)[:80]))
 
     # ---------------------------------------------------------------- R5 whole-frame yields
     R.describe('C01.R5', 'EncodedBytes::poll_next yields the whole buffer (complete frames only); Pending / end-of-stream only with an empty buffer; encode_item never splits the buffer')
@@ -246,7 +247,7 @@ def run_layout(R, tonic):
         sp = whole_buffer_takes(pn)
         R.floor('C01.R5', 'split_to sites', len(sp), 3)
         for x, t, whole in sp:
-            R.check(whole and mentions_local_named(pn, pn.origin(t['args'][0]), 'buf'), 'C01.R5', 'yield-whole-buffer', site(pn, x), 'the whole buffer is handed out (buf.split_to(buf.len()) / buf.split()): %r' % whole)
+            R.check(whole and mentions_local_named(pn, pn.origin(t['args'][0]), encode_buf_field(tonic)), 'C01.R5', 'yield-whole-buffer', site(pn, x), 'the whole buffer is handed out (buf.split_to(buf.len()) / buf.split()): %r' % whole)
         ei = tonic.body('codec::encode::encode_item')
         g = mirlib.call_graph(tonic)
         for p in mirlib.reach(g, [ei.path]):
@@ -294,7 +295,7 @@ def run_layout(R, tonic):
                         w[0] == 'variant' and w[2] == 'Ready' and kind == 'None' and strip_refs(w[3][0])[0] == 'agg' and strip_refs(w[3][0])[1].get('variant') == 'None')
                     if is_k:
                         gs = pn.edge_guards(bb)
-                        okg = any(is_call(strip_refs(tm), name='is_empty') and mentions_local_named(pn, tm, 'buf') and (vals == ['else'] or 0 not in vals) for s, vals, tm in gs)
+                        okg = any(is_call(strip_refs(tm), name='is_empty') and mentions_local_named(pn, tm, encode_buf_field(tonic)) and (vals == ['else'] or 0 not in vals) for s, vals, tm in gs)
                         R.check(okg, 'C01.R5', 'R5b:%s-only-when-empty' % kind, site(pn, bb), '%s returned only with an empty buffer: %r' % (kind, okg))
 
     # ---------------------------------------------------------------- R6 length-bounded views
